@@ -61,10 +61,11 @@ def run(db, rep, tier):
 
 def r1(db, rep):
     f = fn(db, AT + "::is_segment_acked(")
-    atoms, table = formula.truth_table(f)
+    # conditions are read through named locals and through an extracted predicate helper (formula.reader)
+    atoms, table = formula.truth_table(f, prep=formula.reader(db, f))
     roles = {"len0": lambda a: "length" in a and "0" in a.split("==")[0] + a.split("==")[-1] and "==" in a,
              "more": lambda a: "has_next" in a,
-             "below": lambda a: "comparison" in a,
+             "below": lambda a: "seq_compare" in a and "ack_number_" in a,
              "sacked": lambda a: "contains" in a}
     role_of = {}
     for a in atoms:
@@ -80,13 +81,10 @@ def r1(db, rep):
     def below(v):
         # normalised keys: "x < y".  `comparison >= 0` normalises to key "comparison < 0" with negative polarity,
         # so the atom's truth value is "comparison < 0" = ends below the ACK.
-        if ckey.replace(" ", "") in ("comparison<0",):
+        k_ = ckey.replace(" ", "")
+        if k_.endswith("<0") and k_.startswith("seq_compare(") and "interval_end" in k_.split(",")[0]:
             return v
-        if ckey.replace(" ", "") in ("0<comparison",):
-            return None       # `comparison > 0` is not the statement's test (end == ACK-1 boundary)
-        if ckey.replace(" ", "") in ("0==comparison", "comparison==0"):
-            return None
-        return v
+        return None       # `> 0`, `== 0`, or the operands the other way round: not the statement's test
     bad = None
     for vals, res in table.items():
         env = dict((role_of[a], v) for a, v in zip(atoms, vals) if a in role_of)
@@ -150,13 +148,17 @@ def r4(db, rep):
     for b in g.blocks.values():
         c = g.idx.get(b.get("cond")) if b.get("cond") is not None else None
         if c is not None and len(b["s"]) == 2:
-            for op, l, r in cond.facts_of(f, c, True):
-                if op in (">", "<") and r is not None and facts.cval(r) == 0:
-                    l0 = strip(l)
-                    if l0["k"] == "CallExpr" and l0.get("cname") == "seq_compare" and len(l0["c"]) == 3:
-                        a1, a2 = facts.expr_str(l0["c"][1]), facts.expr_str(l0["c"][2])
-                        if (op == ">" and "last()" in a1 and "ack_number_" in a2) or (op == "<" and "ack_number_" in a1 and "last()" in a2):
-                            skip.add((b["id"], 1))     # block ends at/below the ACK: nothing to record
+            # the edge on which `the block ends at / below the ACK` is known (whichever way the test is written and
+            # whichever branch it guards): nothing to record there
+            for pol in (True, False):
+                for op, l, r in cond.facts_of(f, c, pol):
+                    if op in (">=", "<=") and r is not None and facts.cval(r) == 0:
+                        l0 = strip(l)
+                        if l0["k"] == "CallExpr" and l0.get("cname") == "seq_compare" and len(l0["c"]) == 3:
+                            a1 = facts.expr_str(facts.inline_locals(f, l0["c"][1]))
+                            a2 = facts.expr_str(facts.inline_locals(f, l0["c"][2]))
+                            if (op == "<=" and "last()" in a1 and "ack_number_" in a2) or (op == ">=" and "ack_number_" in a1 and "last()" in a2):
+                                skip.add((b["id"], 0 if pol else 1))
     w = g.reaches_exit_avoiding(D, [L], normal_only=True, skip_edges=skip)
     if w is None and skip:
         rep.ok("R4-no-skip", "process_sack", facts.loc(f, decl[0]), "every path from a block's range either enters the piece loop or the block ends at/below the ACK")
@@ -307,6 +309,7 @@ def r8(db, rep):
         lc = loops[0]["c"][0] if len(loops[0]["c"]) == 2 else loops[0]["c"][1]
         bad = None
         for op, l, r in cond.guards_facts(g, g.pos(lc)):
+            l, r = facts.inline_locals(f, l), (facts.inline_locals(f, r) if r is not None else None)      # named locals read through
             t = facts.expr_str(l) + " " + op + " " + (facts.expr_str(r) if r is not None else "")
             ok = False
             if "sack.size()" in t or ".size()" in t and "i" in t.split("(")[0]:
